@@ -116,10 +116,25 @@ func e2eRun(t *testing.T, it e2eItem, tag string) (rule, what string, trace []st
 					return
 				}
 			}
-			if rule, what = s.Safety(); rule != "" {
+			if it.Oracle == "C08" {
+				rule, what = s.JudgeLifecycle(false)
+			} else {
+				rule, what = s.Safety()
+			}
+			if rule != "" {
 				trace = s.Trace
 				return
 			}
+		}
+		if it.Oracle == "C08" {
+			// the last connection ends; once everything has come to rest nobody is inside a logged-on period
+			s.Cut()
+			synctest.Wait()
+			rule, what = s.JudgeLifecycle(true)
+			trace = s.Trace
+			frames = len(deliverLines(s.Trace))
+			matched = rule == ""
+			return
 		}
 		// conformance: same frames in the same order, same deliveries
 		rA, rI := s.Delivered()
